@@ -44,6 +44,8 @@ def gen(ctx):
         yield Case("RUN", R.gen_case(rng, n=rng.randrange(1, 61 if ctx.thorough else 31), adversarial=rng.choice([0.2, 0.4, 0.6]), faults=rng.choice([0.05, 0.1, 0.2]), stop=0.02, rich=rng.random() < 0.5), tags=("adversarial",))
     for _s in R.long_fault_runs():
         yield Case("RUN", _s, tags=("long-recv-failure-run",))
+    # thousands of datagrams in a row from a peer without a pathname over the real unix transport: ignored, whatever their number
+    yield Case("STOPX", "unixnoise burst", tags=("unnamed-peer-burst",))
     for typ in list(range(0, 8)) + [255, 256, 257, 258, 259, 260, 261, 0xFFFF]:
         for ln in (8, 12, 16, 20, 96):
             import struct
@@ -53,6 +55,8 @@ def gen(ctx):
 
 
 def classify(c, r):
+    if c.cmd == "STOPX":
+        return ["unnamed-peer-burst:" + r]
     if c.cmd == "XPT":
         return ["oversize:" + r]
     parts = r.split(" | ")
@@ -60,10 +64,12 @@ def classify(c, r):
 
 
 def nontrivial(c, r):
-    return c.cmd == "XPT" or "RAW" in c.args and ("RP " in r or "NF " in r)
+    return c.cmd in ("XPT", "STOPX") or "RAW" in c.args and ("RP " in r or "NF " in r)
 
 
 def oracle(c, impl_res):
+    if c.cmd == "STOPX":
+        return ("ORC", "C16 %s" % ("RES PANIC" if impl_res in ("ABORT", "HANG") or "PANIC" in impl_res else "RES OK"))
     if c.cmd == "XPT":
         return ("ORC", "C19 over @@ %s" % impl_res)
     if c.cmd == "RUNPAIR":
